@@ -319,3 +319,478 @@ theorem admin_no_crash_fixed (v : Variant) (hv : v.fixUpdate = true) (s : Cache)
         split at hr
         · cases hr
         cases hp : s.provName adm.provId <;> simp [hp] at hr
+
+/-! ## 3. paging through administrators -/
+
+/-- **paging_exact (administrators)** — following `Find` from the empty cursor with any page size
+    (non-positive sizes mean the default 20, sizes above 100 mean 100) returns the listing, every
+    administrator exactly once and in order. -/
+theorem admin_paging_exact (c : AColl) (h : AInv c) (limit : Int) (fuel : Nat) (hf : c.sorted.length < fuel) :
+    (c.pages limit fuel).flatten = c.sorted ∧ (c.sorted.map (·.id)).Nodup := by
+  refine ⟨?_, h.nodup_id⟩
+  unfold AColl.pages
+  apply pagesG_all (fun (a : Adm) => a.id) id id c.sorted (normLimit limit) h.sorted (normLimit_pos limit)
+  · intro x _; exact slt_nil _
+  · intro x _; rfl
+  · intro x _ y _ hxy e
+    simp only [id] at e
+    rw [e, slt_nil] at hxy; cases hxy
+  · exact hf
+
+example : AInv base.A ∧ (base.A.pages 1 10) = [[a0], [a1]] := ⟨admin_inv_reachable _ _, by decide⟩
+
+/-! ## 4. provisioner collection -/
+
+/-- what the harness guarantees about the SHA-1 input: 32 hex digits -/
+def WfProv (p : Prov) : Prop := p.sum.length = 32 ∧ ∀ c ∈ p.sum, 48 ≤ c
+
+/-- invariant of the provisioner collection: `byID`, `byName`, `byTokenID` index exactly the listed
+    provisioners (hence ids, names and token ids are unique), the listing is strictly ascending by
+    uid (sorted, duplicate-free) and every uid is 8 hex digits followed by the SHA-1 tail -/
+structure PInv (c : PColl) : Prop where
+  idx_id : IsIndex (·.id) c.byID (c.sorted.map (·.2))
+  idx_name : IsIndex (·.name) c.byName (c.sorted.map (·.2))
+  idx_tok : IsIndex (·.tok) c.byTok (c.sorted.map (·.2))
+  sorted : Sorted (·.1) c.sorted
+  nodup_id : (c.sorted.map (·.2.id)).Nodup
+  uid : ∀ e ∈ c.sorted, ∃ n, e.1 = uidOf n e.2
+  wf : ∀ e ∈ c.sorted, WfProv e.2
+
+theorem PInv.empty : PInv {} :=
+  ⟨IsIndex.nil, IsIndex.nil, IsIndex.nil, List.Pairwise.nil, List.nodup_nil, by simp, by simp⟩
+
+/-- no listed provisioner with a different id has the same SHA-1 tail as `p` -/
+def SumFresh (c : PColl) (p : Prov) : Prop := ∀ e ∈ c.sorted, e.2.sum = p.sum → e.2.id = p.id
+
+theorem PColl.store_spec (c : PColl) (p : Prov) (h : PInv c) (hw : WfProv p) (hs : SumFresh c p) :
+    PInv (c.store p).1 ∧ ((c.store p).2 ≠ none → (c.store p).1 = c) ∧
+    ((c.store p).2 = none → ∀ q, q ∈ (c.store p).1.sorted.map (·.2) ↔ q = p ∨ q ∈ c.sorted.map (·.2)) := by
+  unfold PColl.store
+  split
+  · exact ⟨h, fun _ => rfl, by simp⟩
+  rename_i hid
+  have hid' : c.byID.has p.id = false := by simpa using hid
+  split
+  · have e : ({ c with byID := (c.byID.put p.id p).del p.id } : PColl) = c := by
+      rw [Map.put_del_absent hid']
+    simp only [e]
+    refine ⟨h, ?_, ?_⟩ <;> simp
+  rename_i hname
+  have hname' : c.byName.has p.name = false := by simpa using hname
+  split
+  · have e : ({ c with byID := (c.byID.put p.id p).del p.id, byName := (c.byName.put p.name p).del p.name } : PColl) = c := by
+      rw [Map.put_del_absent hid', Map.put_del_absent hname']
+    simp only [e]
+    refine ⟨h, ?_, ?_⟩ <;> simp
+  rename_i htok
+  have htok' : c.byTok.has p.tok = false := by simpa using htok
+  have nid : ∀ v ∈ c.sorted.map (·.2), v.id ≠ p.id := h.idx_id.has_false.mp hid'
+  have nname : ∀ v ∈ c.sorted.map (·.2), v.name ≠ p.name := h.idx_name.has_false.mp hname'
+  have ntok : ∀ v ∈ c.sorted.map (·.2), v.tok ≠ p.tok := h.idx_tok.has_false.mp htok'
+  have hmem : ∀ q, q ∈ (insertBy (·.1) (uidOf c.sorted.length p, p) c.sorted).map (·.2) ↔ q = p ∨ q ∈ c.sorted.map (·.2) := by
+    intro q
+    simp only [List.mem_map, mem_insertBy]
+    constructor
+    · rintro ⟨e, rfl | he, rfl⟩
+      · exact .inl rfl
+      · exact .inr ⟨e, he, rfl⟩
+    · rintro (rfl | ⟨e, he, rfl⟩)
+      · exact ⟨_, .inl rfl, rfl⟩
+      · exact ⟨e, .inr he, rfl⟩
+  have hcongr : ∀ v, v ∈ p :: c.sorted.map (·.2) ↔
+      v ∈ (insertBy (·.1) (uidOf c.sorted.length p, p) c.sorted).map (·.2) := by
+    intro v; rw [hmem]; simp
+  refine ⟨⟨?_, ?_, ?_, ?_, ?_, ?_, ?_⟩, by simp, fun _ => hmem⟩
+  · exact (h.idx_id.put p nid).congr hcongr
+  · exact (h.idx_name.put p nname).congr hcongr
+  · exact (h.idx_tok.put p ntok).congr hcongr
+  · apply insertBy_sorted h.sorted
+    intro e he heq
+    obtain ⟨m, hm⟩ := h.uid e he
+    simp only at heq
+    rw [hm] at heq
+    unfold uidOf at heq
+    have := (List.append_inj heq (by rw [hex8_length, hex8_length])).2
+    exact nid e.2 (List.mem_map.mpr ⟨e, he, rfl⟩) (hs e he this)
+  · simp only
+    have hp : ((insertBy (·.1) (uidOf c.sorted.length p, p) c.sorted).map (·.2.id)).Perm
+        (((uidOf c.sorted.length p, p) :: c.sorted).map (·.2.id)) := (insertBy_perm _ _ _).map _
+    rw [hp.nodup_iff, List.map_cons, List.nodup_cons]
+    refine ⟨?_, h.nodup_id⟩
+    intro hin
+    obtain ⟨e, he, heq⟩ := List.mem_map.mp hin
+    exact nid e.2 (List.mem_map.mpr ⟨e, he, rfl⟩) heq
+  · intro e he
+    rcases mem_insertBy.mp he with rfl | he
+    · exact ⟨_, rfl⟩
+    · exact h.uid e he
+  · intro e he
+    rcases mem_insertBy.mp he with rfl | he
+    · exact hw
+    · exact h.wf e he
+
+theorem PColl.remove_spec (c : PColl) (id : Str) (h : PInv c) :
+    PInv (c.remove id).1 ∧ ((c.remove id).2 ≠ none → (c.remove id).1 = c) ∧
+    ((c.remove id).2 = none →
+      (c.remove id).1.sorted = c.sorted.filter (fun e => decide (e.2.id ≠ id)) ∧ ∃ e ∈ c.sorted, e.2.id = id) := by
+  unfold PColl.remove
+  cases hg : c.byID.get id with
+  | none => exact ⟨h, fun _ => rfl, by simp⟩
+  | some prov =>
+    have hp := h.idx_id.get_some.mp hg
+    obtain ⟨e0, he0, he0p⟩ := List.mem_map.mp hp.1
+    simp only
+    split
+    · exact ⟨h, fun _ => rfl, by simp⟩
+    have hso := eraseId_eq_filter (id := id) h.nodup_id
+    have hvs : ∀ v, v ∈ (c.sorted.filter (fun e => decide (e.2.id ≠ id))).map (·.2) ↔
+        v ∈ c.sorted.map (·.2) ∧ v.id ≠ id := by
+      intro v
+      simp only [List.mem_map, List.mem_filter, decide_eq_true_eq]
+      constructor
+      · rintro ⟨e, ⟨he, hne⟩, rfl⟩; exact ⟨⟨e, he, rfl⟩, hne⟩
+      · rintro ⟨⟨e, he, rfl⟩, hne⟩; exact ⟨e, ⟨he, hne⟩, rfl⟩
+    refine ⟨⟨?_, ?_, ?_, ?_, ?_, ?_, ?_⟩, by simp, fun _ => ⟨hso, e0, he0, by rw [he0p]; exact hp.2.symm⟩⟩
+    · simp only [hso]
+      exact (h.idx_id.del id).congr (fun v => by rw [hvs]; simp [List.mem_filter])
+    · simp only [hso]
+      refine (h.idx_name.del prov.name).congr (fun v => ?_)
+      rw [hvs, List.mem_filter, decide_eq_true_eq]
+      constructor
+      · rintro ⟨hv, hne⟩
+        refine ⟨hv, fun hid => hne ?_⟩
+        rw [h.idx_id.inj hv hp.1 (by rw [hid]; exact hp.2)]
+      · rintro ⟨hv, hne⟩
+        refine ⟨hv, fun hnm => hne ?_⟩
+        rw [h.idx_name.inj hv hp.1 hnm]; exact hp.2.symm
+    · simp only [hso]
+      refine (h.idx_tok.del prov.tok).congr (fun v => ?_)
+      rw [hvs, List.mem_filter, decide_eq_true_eq]
+      constructor
+      · rintro ⟨hv, hne⟩
+        refine ⟨hv, fun hid => hne ?_⟩
+        rw [h.idx_id.inj hv hp.1 (by rw [hid]; exact hp.2)]
+      · rintro ⟨hv, hne⟩
+        refine ⟨hv, fun hnm => hne ?_⟩
+        rw [h.idx_tok.inj hv hp.1 hnm]; exact hp.2.symm
+    · simp only [hso]; exact List.Pairwise.filter _ h.sorted
+    · simp only [hso]
+      exact List.Nodup.sublist (List.Sublist.map _ List.filter_sublist) h.nodup_id
+    · simp only [hso]; intro e he; exact h.uid e (List.mem_filter.mp he).1
+    · simp only [hso]; intro e he; exact h.wf e (List.mem_filter.mp he).1
+
+theorem PColl.update_spec (c : PColl) (nu : Prov) (h : PInv c) (hw : WfProv nu) (hs : SumFresh c nu) :
+    PInv (c.update nu).1 := by
+  unfold PColl.update
+  cases hg : c.byID.get nu.id with
+  | none => exact h
+  | some old =>
+    simp only
+    split
+    · exact h
+    split
+    · exact h
+    have hr := PColl.remove_spec c old.id h
+    cases hr2 : (c.remove old.id) with
+    | mk c' e =>
+      rw [hr2] at hr
+      cases e with
+      | some e => exact hr.1
+      | none =>
+        simp only
+        have hso := (hr.2.2 rfl).1
+        simp only at hso
+        refine (PColl.store_spec c' nu hr.1 hw ?_).1
+        intro e he; rw [hso] at he
+        exact hs e (List.mem_filter.mp he).1
+
+/-- the SHA-1 facts assumed about a universe of provisioners: 32 hex digits each, and no two
+    different ids with the same tail (`hex(sha1(id))[8:]`) -/
+def SumsOK (U : List Prov) : Prop :=
+  (∀ p ∈ U, WfProv p) ∧ ∀ p ∈ U, ∀ q ∈ U, p.sum = q.sum → p.id = q.id
+
+def provOf : COp → Option Prov
+  | .pStore p => some p
+  | .pUpdate p => some p
+  | _ => none
+
+theorem cstep_prov (v : Variant) (U : List Prov) (hU : SumsOK U) (s : Cache) (op : COp)
+    (hop : ∀ p, provOf op = some p → p ∈ U) (h : PInv s.P) (hsU : ∀ e ∈ s.P.sorted, e.2 ∈ U) :
+    PInv (cstep v s op).1.P ∧ ∀ e ∈ (cstep v s op).1.P.sorted, e.2 ∈ U := by
+  have fresh : ∀ (c : PColl) (p : Prov), p ∈ U → (∀ e ∈ c.sorted, e.2 ∈ U) → SumFresh c p :=
+    fun c p hp hc e he heq => hU.2 e.2 (hc e he) p hp heq
+  cases op with
+  | pStore p =>
+    have hp := hop p rfl
+    have sp := PColl.store_spec s.P p h (hU.1 p hp) (fresh _ p hp hsU)
+    refine ⟨sp.1, ?_⟩
+    simp only [cstep]
+    cases hr : (s.P.store p).2 with
+    | some e => rw [sp.2.1 (by rw [hr]; simp)]; exact hsU
+    | none =>
+      intro e he
+      rcases (sp.2.2 hr e.2).mp (List.mem_map.mpr ⟨e, he, rfl⟩) with h1 | h1
+      · rw [h1]; exact hp
+      · obtain ⟨e', he', heq⟩ := List.mem_map.mp h1
+        rw [← heq]; exact hsU e' he'
+  | pRemove id =>
+    have sp := PColl.remove_spec s.P id h
+    refine ⟨sp.1, ?_⟩
+    simp only [cstep]
+    cases hr : (s.P.remove id).2 with
+    | some e => rw [sp.2.1 (by rw [hr]; simp)]; exact hsU
+    | none =>
+      rw [(sp.2.2 hr).1]
+      intro e he; exact hsU e (List.mem_filter.mp he).1
+  | pUpdate p =>
+    have hp := hop p rfl
+    refine ⟨PColl.update_spec s.P p h (hU.1 p hp) (fresh _ p hp hsU), ?_⟩
+    simp only [cstep]
+    unfold PColl.update
+    cases hg : s.P.byID.get p.id with
+    | none => exact hsU
+    | some old =>
+      simp only
+      split
+      · exact hsU
+      split
+      · exact hsU
+      have hr := PColl.remove_spec s.P old.id h
+      cases hr2 : (s.P.remove old.id) with
+      | mk c' e =>
+        rw [hr2] at hr
+        have hc'U : ∀ e ∈ c'.sorted, e.2 ∈ U := by
+          cases e with
+          | some e =>
+            have := hr.2.1 (by simp)
+            simp only at this
+            rw [this]; exact hsU
+          | none =>
+            have := (hr.2.2 rfl).1
+            simp only at this
+            rw [this]; intro e he; exact hsU e (List.mem_filter.mp he).1
+        cases e with
+        | some e => exact hc'U
+        | none =>
+          simp only
+          have sp := PColl.store_spec c' p hr.1 (hU.1 p hp) (fresh _ p hp hc'U)
+          cases hr3 : (c'.store p).2 with
+          | some e => rw [sp.2.1 (by rw [hr3]; simp)]; exact hc'U
+          | none =>
+            intro e he
+            rcases (sp.2.2 hr3 e.2).mp (List.mem_map.mpr ⟨e, he, rfl⟩) with h1 | h1
+            · rw [h1]; exact hp
+            · obtain ⟨e', he', heq⟩ := List.mem_map.mp h1
+              rw [← heq]; exact hc'U e' he'
+  | aStore a pid pname => exact ⟨h, hsU⟩
+  | aRemove id =>
+    simp only [cstep]
+    cases s.A.remove s.provName id <;> exact ⟨h, hsU⟩
+  | aUpdate id t =>
+    simp only [cstep]
+    cases s.A.update v s.provName id t <;> exact ⟨h, hsU⟩
+
+/-- **Inv (provisioners)** — for every sequence of collection operations, accepted or rejected,
+    on provisioners whose SHA-1 inputs are sound: the three indexes agree with the listing, ids,
+    names and token ids are unique, the listing is sorted by uid and duplicate-free. -/
+theorem prov_inv_preserved (v : Variant) (U : List Prov) (hU : SumsOK U) (ops : List COp)
+    (hops : ∀ o ∈ ops, ∀ p, provOf o = some p → p ∈ U) (s : Cache)
+    (h : PInv s.P) (hsU : ∀ e ∈ s.P.sorted, e.2 ∈ U) : PInv (crun v s ops).P := by
+  induction ops generalizing s with
+  | nil => exact h
+  | cons o r ih =>
+    have h1 := cstep_prov v U hU s o (hops o List.mem_cons_self) h hsU
+    exact ih (fun o' ho' => hops o' (List.mem_cons_of_mem _ ho')) _ h1.1 h1.2
+
+/-- uniqueness as the admin API shows it: two listed provisioners with the same id, the same
+    name or the same token id are the same provisioner -/
+theorem PInv.unique {c : PColl} (h : PInv c) {p q : Prov} (hp : p ∈ c.sorted.map (·.2)) (hq : q ∈ c.sorted.map (·.2)) :
+    (p.id = q.id → p = q) ∧ (p.name = q.name → p = q) ∧ (p.tok = q.tok → p = q) :=
+  ⟨h.idx_id.inj hp hq, h.idx_name.inj hp hq, h.idx_tok.inj hp hq⟩
+
+theorem PInv.uid_shape {c : PColl} (h : PInv c) {e : Str × Prov} (he : e ∈ c.sorted) :
+    e.1.length = 40 ∧ ∀ x ∈ e.1, 48 ≤ x := by
+  obtain ⟨n, hn⟩ := h.uid e he
+  have hw := h.wf e he
+  rw [hn]; unfold uidOf
+  refine ⟨by rw [List.length_append, hex8_length, hw.1], ?_⟩
+  intro x hx
+  rcases List.mem_append.mp hx with hx | hx
+  · exact hex8_ge n x hx
+  · exact hw.2 x hx
+
+/-- **paging_exact (provisioners)** — following `Find` from the empty cursor with any page size
+    returns the listing, every provisioner exactly once (cursor = uid without leading zeros,
+    re-padded to 40 digits by the next call). -/
+theorem prov_paging_exact (c : PColl) (h : PInv c) (limit : Int) (fuel : Nat) (hf : c.sorted.length < fuel) :
+    (c.pages limit fuel).flatten = c.sorted ∧ (c.sorted.map (·.2.id)).Nodup := by
+  refine ⟨?_, h.nodup_id⟩
+  unfold PColl.pages
+  apply pagesG_all (fun (e : Str × Prov) => e.1) PColl.pad40 PColl.trim0 c.sorted (normLimit limit) h.sorted
+    (normLimit_pos limit)
+  · intro x hx
+    have := h.uid_shape hx
+    exact not_lt_zeros 40 x.1 this.1 this.2
+  · intro x hx; exact pad40_trim0 x.1 (h.uid_shape hx).1
+  · intro x hx y hy hxy e
+    have hy0 := trim0_eq_nil e
+    rw [(h.uid_shape hy).1] at hy0
+    have := not_lt_zeros 40 x.1 (h.uid_shape hx).1 (h.uid_shape hx).2
+    rw [hy0, this] at hxy
+    cases hxy
+  · exact hf
+
+namespace Witness
+def q0 : Prov := { id := s "p0", name := s "n0", tok := s "t0", kid := none, sum := s "22cb0444557b525de5b371e58e7199ef" }
+def q1 : Prov := { id := s "p1", name := s "n1", tok := s "t1", kid := some (s "k"), sum := s "11ec06f96af3ca654c22172a5d746c40" }
+def q2 : Prov := { id := s "p2", name := s "n2", tok := s "t2", kid := none, sum := s "9f737a955a308050062e7a2c34ee67c3" }
+/-- three provisioners stored, the first removed, one re-stored: two uids share the index prefix -/
+def pops : List COp := [.pStore q0, .pStore q1, .pStore q2, .pRemove (s "p0"), .pStore q0]
+end Witness
+
+example : SumsOK [q0, q1, q2] := by
+  refine ⟨?_, ?_⟩
+  · intro p hp
+    simp only [List.mem_cons, List.not_mem_nil, or_false] at hp
+    rcases hp with rfl | rfl | rfl <;> exact ⟨by decide, by decide⟩
+  · intro p hp q hq
+    simp only [List.mem_cons, List.not_mem_nil, or_false] at hp hq
+    rcases hp with rfl | rfl | rfl <;> rcases hq with rfl | rfl | rfl <;> decide
+
+example : ((crun .coded {} pops).P.pages 1 10).map (·.map (·.2.id)) = [[s "p1"], [s "p0"], [s "p2"]] := by decide
+
+/-! ## 5. the authority layer: cache versus database -/
+
+/-- the cache is exactly what a restart would build from the database -/
+def IsImage (s : Auth) : Prop := buildCache s.db.provs s.db.adms = some s.cache
+
+theorem reload_image (f : Faults) (s : Auth) (h : (reload f s).2 = false) :
+    IsImage (reload f s).1 ∧ (reload f s).1.db = s.db := by
+  unfold reload at h ⊢
+  simp only [tick] at h ⊢
+  by_cases hb1 : s.calls + 1 ∈ f
+  · simp [hb1] at h
+  by_cases hb2 : s.calls + 1 + 1 ∈ f
+  · simp [hb1, hb2] at h
+  cases hbc : buildCache s.db.provs s.db.adms with
+  | none => simp [hb1, hb2, hbc] at h
+  | some c => simp [hb1, hb2, IsImage, hbc]
+
+theorem afterFail_image (f : Faults) (s : Auth) (o : AuthOut) (_ho : o ≠ .reloadFailed)
+    (h : (afterFail f s o).2 ≠ .reloadFailed) :
+    IsImage (afterFail f s o).1 ∧ (afterFail f s o).1.db = s.db := by
+  unfold afterFail at h ⊢
+  cases hr : (reload f s).2 with
+  | true => simp [hr] at h
+  | false =>
+    have := reload_image f s hr
+    simpa using this
+
+/-- **cache_eq_store (restart)** — a CA that starts (or restarts) successfully holds exactly the
+    image of the database. -/
+theorem restart_is_image (v : Variant) (f : Faults) (s : Auth) (h : (Auth.step v f s .restart).2 = .ok) :
+    IsImage (Auth.step v f s .restart).1 ∧ (Auth.step v f s .restart).1.db = s.db := by
+  unfold Auth.step at h ⊢
+  simp only at h ⊢
+  cases hr : reload f { s with calls := 0 } with
+  | mk s' b =>
+    cases b with
+    | true => simp [hr] at h
+    | false =>
+      have := reload_image f { s with calls := 0 } (by rw [hr])
+      rw [hr] at this
+      simpa using this
+
+/-- **cache_eq_store (failed admin update / delete)** — when the database write of `UpdateAdmin`
+    or `RemoveAdmin` fails and the request reports that failure, the cache has been rebuilt from
+    the database, which the failed write left untouched. -/
+theorem admin_write_failure_restores (v : Variant) (f : Faults) (s : Auth) (id : Str) (t : Bool) :
+    ((Auth.step v f s (.updateAdmin id t)).2 = .storeFailed →
+      IsImage (Auth.step v f s (.updateAdmin id t)).1 ∧ (Auth.step v f s (.updateAdmin id t)).1.db = s.db) ∧
+    ((Auth.step v f s (.removeAdmin id)).2 = .storeFailed →
+      IsImage (Auth.step v f s (.removeAdmin id)).1 ∧ (Auth.step v f s (.removeAdmin id)).1.db = s.db) := by
+  constructor
+  · intro h
+    unfold Auth.step at h ⊢
+    simp only at h ⊢
+    cases hu : AColl.update v s.cache.A s.cache.provName id t with
+    | crash => simp [hu] at h
+    | val r =>
+      obtain ⟨A, e⟩ := r
+      cases e with
+      | some e => simp only [hu] at h; cases e <;> simp [aerrClass] at h
+      | none =>
+        simp only [hu] at h ⊢
+        simp only [tick] at h ⊢
+        by_cases hb : 1 ∈ f
+        · simp only [Nat.zero_add, List.contains_eq_mem, hb, decide_true, if_true] at h ⊢
+          have := afterFail_image f _ .storeFailed (by simp) (by rw [h]; simp)
+          simpa using this
+        · simp [hb] at h
+  · intro h
+    unfold Auth.step Auth.removeAdmin1 at h ⊢
+    simp only at h ⊢
+    cases hu : AColl.remove s.cache.A s.cache.provName id with
+    | crash => simp [hu] at h
+    | val r =>
+      obtain ⟨A, e⟩ := r
+      cases e with
+      | some e => simp only [hu] at h; cases e <;> simp [aerrClass] at h
+      | none =>
+        simp only [hu] at h ⊢
+        simp only [tick] at h ⊢
+        by_cases hb : 1 ∈ f
+        · simp only [Nat.zero_add, List.contains_eq_mem, hb, decide_true, if_true] at h ⊢
+          have := afterFail_image f _ .storeFailed (by simp) (by rw [h]; simp)
+          simpa using this
+        · simp [hb] at h
+
+namespace Witness
+def db0 : DB := { provs := [p0], adms := [{ id := s "a0", sub := s "step", provId := s "p0", super := true }] }
+def p0' : Prov := { p0 with name := s "n2", tok := s "t2" }
+/-- a CA started on a database with one provisioner `n0` and its only super admin `step` -/
+def booted (v : Variant) : Auth := (Auth.step v [] { db := db0 } .restart).1
+/-- … after renaming that provisioner to `n2` -/
+def renamed (v : Variant) : Auth := (Auth.step v [] (booted v) (.updateProv p0')).1
+end Witness
+
+example : IsImage (booted .coded) ∧ (booted .coded).cache.A.bySubProv.get (s "step", s "n0") ≠ none := by
+  unfold IsImage; decide
+
+/-- **cache_eq_store / remove_provisioner_exact (refutation, code as it is)** — renaming a
+    provisioner that has administrators is accepted and stored, but the administrator cache keeps
+    the old name: the running CA no longer finds the admin under (subject, current name) although
+    a restart would; `RemoveProvisioner` then succeeds without deleting that admin — the last
+    super admin — from the database, and the next start fails. -/
+theorem rename_breaks_cache_eq_store :
+    (Auth.step .coded [] (booted .coded) (.updateProv p0')).2 = .ok ∧
+    (renamed .coded).cache.A.bySubProv.get (s "step", s "n2") = none ∧
+    ((buildCache (renamed .coded).db.provs (renamed .coded).db.adms).bind
+        (fun c => c.A.bySubProv.get (s "step", s "n2"))).isSome = true ∧
+    (let r := Auth.step .coded [] (renamed .coded) (.removeProv (s "p0"))
+     r.2 = .ok ∧ r.1.db.provs = [] ∧ r.1.db.adms = db0.adms ∧
+     (Auth.step .coded [] r.1 .restart).2 = .reloadFailed) := by decide
+
+/-- the repaired code on the same history: the cache is the image of the database after the
+    rename, and the provisioner holding the last super admin cannot be removed -/
+example :
+    (Auth.step .fixed [] (booted .fixed) (.updateProv p0')).2 = .ok ∧ IsImage (renamed .fixed) ∧
+    (Auth.step .fixed [] (renamed .fixed) (.removeProv (s "p0"))).2 = .badRequest := by
+  unfold IsImage; decide
+
+/-! ## 6. a policy that would lock an administrator out is refused -/
+
+/-- **policy_no_lockout** — `checkPolicy` accepts a policy only if the engine built from it
+    allows the subject of the requesting admin and of every other admin it is given. -/
+theorem policy_no_lockout (verdict : Str → SanVerdict) (subjects : List Str) :
+    checkPolicy verdict subjects = .ok ↔ ∀ sub ∈ subjects, verdict sub = .allowed := by
+  induction subjects with
+  | nil => simp [checkPolicy]
+  | cons x r ih =>
+    unfold checkPolicy
+    cases hx : verdict x <;> simp [hx, ih]
+
+example : checkPolicy (fun x => if x = s "step" then .notAllowed else .allowed) [s "a", s "step"] = .lockOut := by
+  decide
+
+end Verif.Admin
